@@ -45,7 +45,8 @@ BAD = {
     "href": ["#nope", "", "#", "nope", "##", "#e999999", "url(#e1)", " #e2"],
 }
 GEOM = {"rect": ["x", "y", "width", "height", "rx", "ry"], "circle": ["cx", "cy", "r"], "ellipse": ["cx", "cy", "rx", "ry"], "line": ["x1", "y1", "x2", "y2"],
-        "svg": ["x", "y", "width", "height"], "use": ["x", "y", "width", "height"]}
+        "svg": ["x", "y", "width", "height"], "use": ["x", "y", "width", "height"], "text": ["x", "y", "dx", "dy", "font-size"], "tspan": ["x", "y", "dx"],
+        "image": ["x", "y", "width", "height"]}
 STEP_LIMIT = 3000000
 
 
@@ -70,10 +71,45 @@ def bad_path_data(R):
     return "M 1 2 L"
 
 
+OTHER = ["text", "text", "tspan-in-text", "image", "foo", "title", "desc", "clipPath", "pattern", "a"]
+
+
+def add_other_elements(R, doc):
+    """elements outside C03's vocabulary (text, image, unknown, descriptive, clipPath, pattern): hosts for faults; they render no shape"""
+    hosts = [n for n in GD.walk(doc) if n["tag"] in ("svg", "g")]
+    k = 0
+    for _ in range(R.randint(0, 3)):
+        h = R.choice(hosts)
+        kind = R.choice(OTHER)
+        k += 1
+        n = {"tag": kind, "id": "o%d" % k, "geom": {}, "children": [], "attrs": {}}
+        if kind in ("text", "tspan-in-text"):
+            n["tag"] = "text"
+            n["geom"] = {"x": [float(R.randint(-20, 20)), ""], "y": [float(R.randint(-20, 20)), ""]}
+            n["text"] = R.choice(["hello", "", "a b"])
+            if R.random() < 0.5:
+                n["attrs"]["font-size"] = R.choice(["12", "10px", "1.5em"])
+            if kind == "tspan-in-text":
+                k += 1
+                n["children"].append({"tag": "tspan", "id": "o%d" % k, "geom": {"x": [1.0, ""]}, "children": [], "attrs": {}, "text": "t"})
+        elif kind == "image":
+            n["geom"] = {"x": [1.0, ""], "y": [2.0, ""], "width": [10.0, ""], "height": [12.0, ""]}
+            n["attrs"]["href"] = "nothing.png"
+        elif kind in ("title", "desc"):
+            n["text"] = "words"
+        elif kind in ("clipPath", "pattern", "a"):
+            k += 1
+            n["children"].append({"tag": "rect", "id": "o%d" % k, "geom": {"width": [5.0, ""], "height": [4.0, ""]}, "children": [], "attrs": {}})
+        if R.random() < 0.3:
+            n["tf"], n["tftext"] = None, "translate(3, 4)"
+        h["children"].insert(R.randint(0, len(h["children"])), n)
+
+
 def gen_case(R, index, tier):
     kind = KINDS[index % len(KINDS)]
     opts = {"units": 0.15, "percent": 0.1, "nested_svg": 0.3, "use": 0.6, "hidden": 0.05, "depth": 3 if tier == "quick" else 5}
     doc = GD.add_paint(R, GD.generate(R, opts), 0.25)
+    add_other_elements(R, doc)
     pm = GD.parent_map(doc)
     nodes = [n for n in GD.walk(doc) if n is not doc and n["tag"] != "defs"]
     faults = []  # {"id", "attr", "text"}
